@@ -25,6 +25,20 @@ CHECKS = {
         A_NOTE,
         "DESIGN.md section 3 (engine A) and section 4, C02",
     ),
+    "C03": (
+        "model_checking",
+        A_TECH + "; life-cycle automaton and adapter finalize counters kept in the explored state",
+        "Every execution of run(end_time) for the enumerated valid compositions is explored (all step choices up to the end time, 7-10 end times per family in choice mode and the full half-hour end-time lattice with fixed cyclic step lists); termination, end reached, strictly increasing times, no update after the end, the life-cycle language of every component and exactly-once finalisation of every adapter are judged on every transition / terminal state.",
+        A_NOTE,
+        "DESIGN.md section 4, C03",
+    ),
+    "C04": (
+        "model_checking",
+        A_TECH + "; expected outcome from an independent cycle analysis of the configuration",
+        "All rings of 2-3 (choice mode) and 4-5 (fixed step lists) components with 17 kinds of delay material on every link position/subset, chords, tails, a pull-based node and all/rotated listing orders are executed exhaustively; an unbroken cycle must end in the circular-coupling error (never hang, recursion, TypeError, time/data error or completion), a sufficiently delayed one must complete with the C01/C02 monitors green on every transition.",
+        A_NOTE + " Delay adapters upstream of a push-notified adapter are not counted as delay material (they cannot take effect).",
+        "DESIGN.md section 4, C04",
+    ),
     "C10": (
         "fault_enumeration",
         "exhaustive enumeration of memory limits (every prefix of publications kept in RAM plus off-by-one around each threshold) x slot kind x payload kind x step pair, each executed through the real Composition and compared differentially with the unlimited run; directory listing observed around every update",
